@@ -68,13 +68,15 @@ REPAIRED = {K_TAO_SINGLE, K_TSORT, K_BIN_LIST, K_TAO_DUP, K_ODD_SINGLE, K_SUBT_E
 # the abstract view and the literal models of the operations
 # =====================================================================================================
 class View:
-    __slots__ = ('temporal', 'rows', 'cols', 'times', 'val', 'obs', 'ch', 'tm', 'desc', 'tlist', 'fl')
+    __slots__ = ('temporal', 'rows', 'cols', 'times', 'val', 'obs', 'ch', 'tm', 'desc', 'tlist', 'fl', 'scale', 'tol')
 
-    def __init__(self, temporal, rows, cols, times, val, obs, ch, tm, desc, tlist=False, fl=False):
+    def __init__(self, temporal, rows, cols, times, val, obs, ch, tm, desc, tlist=False, fl=False, scale=1.0, tol=1e-9):
         self.temporal, self.rows, self.cols, self.times = temporal, rows, cols, times
         self.val, self.obs, self.ch, self.tm, self.desc = val, obs, ch, tm, desc
         self.tlist = tlist      # bookkeeping for classification only: the real time descriptors are python lists
         self.fl = fl            # bookkeeping only: numeric obs descriptors of the real object are float arrays
+        self.scale = scale      # unit of the real measurements: real value = scale * model value (sweep: extreme units)
+        self.tol = tol          # relative tolerance for measurements (1e-6 for float32 data, 1e-9 otherwise)
 
     def clone(self, **kw):
         a = {k: getattr(self, k) for k in self.__slots__}
@@ -89,11 +91,22 @@ def _isnum(x):
     return isinstance(x, (int, float, np.integer, np.floating)) and not isinstance(x, (bool, np.bool_))
 
 
-def _eq(a, b):
+def _isseq(x):
+    return isinstance(x, (list, tuple)) or (isinstance(x, np.ndarray) and x.ndim > 0)
+
+
+def _eq(a, b, tol=1e-9):
+    """numbers: equal up to the RELATIVE tolerance `tol` (no absolute threshold: values in units of 1e-26 must stay
+    distinguishable); vector-valued descriptor entries: element by element"""
     if b is ANY or a is ANY:
         return True
+    if _isseq(a) or _isseq(b):
+        if not (_isseq(a) and _isseq(b)) or len(a) != len(b):
+            return False
+        return all(_eq(x, y, tol) for x, y in zip(a, b))
     if _isnum(a) and _isnum(b):
-        return abs(float(a) - float(b)) <= 1e-9 * max(1.0, abs(float(b)))
+        a, b = float(a), float(b)
+        return a == b or abs(a - b) <= tol * max(abs(a), abs(b))
     if _isnum(a) != _isnum(b):
         return False
     try:
